@@ -58,6 +58,10 @@ def obligations():
           'block difficulties < 2^56, epoch lengths < 16', covers=1, weight=6, timeout=3000, mem=20, tiers=('thorough',)),
         k('O14.1-complete-q0', 'complete_n0_q', 'every legal history inside one epoch is accepted by verify_tau and verify_total_difficulty', 'block difficulties < 2^56, epoch lengths < 16, same epoch',
           covers=1, weight=4, timeout=900, mem=8, tiers=('quick',)),
+        k('O14.2-sound-q1s', 'vtd_sound_q1s', 'verify_total_difficulty Ok implies: not decreasing; same epoch => total = d*(delta index); one switch => exact unaligned sum',
+          'well-formed ordered epochs (all 16/16/24-bit fields), <=1 switch, block difficulties < 2^8, totals 256-bit', covers=2, weight=7, timeout=700, mem=10, tiers=('quick',)),
+        k('O14.1-complete-q1s', 'complete_n1_qs', 'every legal history across exactly one epoch switch is accepted by verify_tau and verify_total_difficulty',
+          'block difficulties < 2^8, epoch lengths < 8, start total < 2^24', covers=1, weight=7, timeout=700, mem=10, tiers=('quick',)),
         k('O14.2-sound-q0', 'vtd_sound_q0', 'verify_total_difficulty Ok implies: not decreasing; inside one epoch total = d*(delta index)', 'well-formed ordered end points in the same epoch, block difficulties < 2^64, totals 256-bit',
           covers=1, weight=4, timeout=1800, mem=8, tiers=('thorough',)),
         k('O14.1-complete-q', 'complete_n01_q', 'every legal history inside one epoch or across exactly one switch is accepted by verify_tau and verify_total_difficulty',
